@@ -438,6 +438,16 @@ def judge(sc, res, a, model_steps, model_wf):
         if want != 999 and res["rc"] != want:
             out.append(("corr:run-exit-real", "broken-obligation",
                         dict(clause=f"process exit status {res['rc']}, run_exit of the received history = {want}")))
+    # (iii') an injected reporter failure that fired: exit status 110 (WRITE_OUTPUT_ERROR) whatever the
+    # statistics say (C01_exit_report_error about run_exit_real); when the injection point was never reached
+    # the run is an ordinary one
+    if sc.get("tap_fail_at") and not res["timed_out"]:
+        fired = "error reporting results" in res["stderr"]
+        want = 110 if fired else (model_wf[1] if (not why and coq_wf) else None)
+        if want not in (None, 999) and res["rc"] != want:
+            out.append(("corr:run-exit-real", "broken-obligation",
+                        dict(clause=f"process exit status {res['rc']}, run_exit_real of the received history = {want} "
+                                    f"(injected reporter failure fired: {fired})")))
     return out
 
 
